@@ -156,7 +156,7 @@ contract("_HoldingScopeFinder.find_scope_end", source=S + "_HoldingScopeFinder.f
 # ---- CPython cross-check on REAL scope trees: the contracts above evaluated natively (also judges bodies that leave the verified subset) ----------------
 _XC_SRCS = [
     "def f(a):\n    def g(b):\n        return [c for c in b]\n    return g(a)\n\n\nclass K:\n    def m(self):\n        return lambda q: q\n",
-    "def f(xs, ys):\n    return [g + 1 for g in xs] if any([h > 0 for h in ys]) else []\n",
+    "def f(xs, ys, flag):\n    best = [g + 1 for g in xs] if any([h > 0 for h in ys]) else []\n    chosen = [d for d in xs] if flag else [e for e in ys]\n    return best, chosen\n",
     "x = [i for i in range(3)]\n\n\ndef top():\n    y = {k: v for k, v in {}.items()}\n    class In:\n        z = (w for w in [])\n    return y\n",
     "class A:\n    class B:\n        def c(self):\n            def d():\n                pass\n            return d\n    def e(self): return 1\n",
     "def one(): return 1\ndef two():\n    a = 1\n\n    b = 2\n    return a + b\n\n# trailing comment\nvalue = two()\n",
